@@ -818,6 +818,8 @@ func init() {
 						what = "obj.Pkg()"
 					case af.isCall(d, "go/types.Object.Parent", "go/types.object.Parent") != nil:
 						what = "obj.Parent()"
+					case af.isCall(d, "go/types.Info.ObjectOf") != nil:
+						what = "obj" // an identifier that denotes no object has nothing to reject (and nothing to ask)
 					}
 					if isNil {
 						return what + "==nil"
@@ -865,7 +867,7 @@ func init() {
 				for _, g := range rj.conds {
 					s := classify(g)
 					all = append(all, s)
-					if s == "err==nil" || s == "ok" || s == "!ok" || s == "obj.Pkg()!=nil" {
+					if s == "err==nil" || s == "ok" || s == "!ok" || s == "obj.Pkg()!=nil" || s == "obj!=nil" {
 						continue
 					}
 					// "the other rejection did not fire" (its if-body ends the callback)
